@@ -163,6 +163,8 @@ def chk_refusals(seed_i, ei, version):
     rv = ref_view(refn, testnet, [0, 1], None)
     for how, c in hdscen.clones(child):
         st, pv = attempt(lambda: public_view(wo, c))
+        if st == "ok" and isinstance(pv, dict) and isinstance(base_view, dict):
+            pv = dict(pv, path=base_view.get("path"))       # whether a duplicate keeps its parent link (path label) is not judged
         if st != "ok" or pv != base_view or any(pv.get(k) != rv[k] for k in rv):
             viols.append(V("%s:clone:node:%s:%s:differs" % (P, how, name), "%s of the derived watch-only node M/0/1 (%s at %s) shows other public data" % (how, name, EXPORTS[ei][0]),
                            str(pv)[:200], str(base_view)[:200]))
